@@ -387,7 +387,9 @@ def run(chk):
                 'random: five families up to 10^6 (log-uniform, smooth sizes, max1 just above a divisor, existence boundary, '
                 'tie-prone maxima); npts: all (npts0, npts2, npts3, size) in a small box + random, non-trivial = three different '
                 'extents and a grid exists; setups: random npts/degrees/size<=8 ranks really built')
-    chk.proof_side(build=not getattr(chk, 'no_build', False))
+    # Props/C20Gen.lean is about the functions REGENERATED from pygyro/model/process_grid.py: run the translator first
+    common.run_translator(chk, 'translate_pure.py', '--only', 'procgrid')
+    chk.proof_side(build=not getattr(chk, 'no_build', False), extra_props=('C20Gen',))
     common.use_repo()
     from pygyro.model.process_grid import compute_2d_process_grid, compute_2d_process_grid_from_max
     old = signal.signal(signal.SIGALRM, _alarm)
